@@ -421,6 +421,9 @@ class tridonic(hid):
             raise UnsupportedFrameTypeError
         await self.connected.wait()
         async with self._command_semaphore:
+            if not self.connected.is_set():
+                # The device went away again while we were waiting
+                raise CommunicationError
             seq = next(self._cmd_seq)
             self._log.debug("Sending with seq %x", seq)
             event = asyncio.Event()
